@@ -5472,6 +5472,13 @@ class Symbol:
         - or has choice and the choice user selection is None
           (choice._user_selection is None -> choice was not touched by user)
         """
+        if self.choice and self.orig_type and any(node.prompt is not None for node in self.nodes):
+            # The value of a choice symbol is decided by the choice alone: a user value on the
+            # symbol itself is ineffective while the choice has no user selection (e.g. n assigned
+            # to the default selection, or Choice.unset_value() after an assignment). Such a symbol
+            # still holds the default, and marking it otherwise would turn it into a user
+            # selection once the written sdkconfig is loaded again.
+            return self.choice._user_selection is None
         return (
             all(node.prompt is None for node in self.nodes)  # promptless symbols always have default value
             or (
